@@ -1,7 +1,7 @@
 // replay-of: property=C07 obligation=C07.upd_known_v1_tombstone_epoch_wa crate=kani_core harness=c07upd::c07_upd_known_v1_tombstone_epoch_wa rustflags=--cfg facebook_akd_verif
 /// Test generated for harness `c07upd::c07_upd_known_v1_tombstone_epoch_wa` 
 ///
-/// Check for `assertion`: ""update proof accepted with a wrong epoch (tombstoned version 1: known finding F-C07)""
+/// Check for `assertion`: "rust_dealloc must be called on an object whose allocated size matches its layout"
 ///
 /// # Warning
 ///
@@ -15,12 +15,10 @@
 /// logic.
 
 #[test]
-fn kani_concrete_playback_c07_upd_known_v1_tombstone_epoch_wa_18320682064559908792() {
+fn kani_concrete_playback_c07_upd_known_v1_tombstone_epoch_wa_11740881601823969459() {
     let concrete_vals: Vec<Vec<u8>> = vec![
         // 3
         vec![3],
-        // 254
-        vec![254],
         // 3
         vec![3],
         // 3
@@ -33,56 +31,58 @@ fn kani_concrete_playback_c07_upd_known_v1_tombstone_epoch_wa_183206820645599087
         vec![3],
         // 3
         vec![3],
-        // 254
-        vec![254],
-        // 254
-        vec![254],
-        // 254
-        vec![254],
-        // 0
-        vec![0],
-        // 254
-        vec![254],
-        // 254
-        vec![254],
-        // 254
-        vec![254],
-        // 254
-        vec![254],
-        // 1ul
-        vec![1, 0, 0, 0, 0, 0, 0, 0],
+        // 3
+        vec![3],
+        // 255
+        vec![255],
         // 255
         vec![255],
         // 0
         vec![0],
+        // 0
+        vec![0],
         // 255
         vec![255],
-        // 7
-        vec![7],
-        // 2
-        vec![2],
-        // 2
-        vec![2],
-        // 2ul
-        vec![2, 0, 0, 0, 0, 0, 0, 0],
-        // 281474976711187ul
-        vec![19, 2, 0, 0, 0, 0, 1, 0],
-        // 281474976711188ul
-        vec![20, 2, 0, 0, 0, 0, 1, 0],
+        // 255
+        vec![255],
+        // 255
+        vec![255],
+        // 255
+        vec![255],
+        // 1ul
+        vec![1, 0, 0, 0, 0, 0, 0, 0],
+        // 255
+        vec![255],
+        // 255
+        vec![255],
+        // 255
+        vec![255],
+        // 255
+        vec![255],
+        // 255
+        vec![255],
+        // 255
+        vec![255],
+        // 3ul
+        vec![3, 0, 0, 0, 0, 0, 0, 0],
+        // 281474976710659ul
+        vec![3, 0, 0, 0, 0, 0, 1, 0],
+        // 281474976710659ul
+        vec![3, 0, 0, 0, 0, 0, 1, 0],
         // 1
         vec![1],
         // 1ul
         vec![1, 0, 0, 0, 0, 0, 0, 0],
-        // 18446744073709420794ul
-        vec![250, 0, 254, 255, 255, 255, 255, 255],
+        // 9ul
+        vec![9, 0, 0, 0, 0, 0, 0, 0],
         // 0
         vec![0],
-        // 65057
-        vec![33, 254],
+        // 65313
+        vec![33, 255],
         // 0
         vec![0],
-        // 1
-        vec![1],
+        // 254
+        vec![254],
     ];
     kani::concrete_playback_run(concrete_vals, c07_upd_known_v1_tombstone_epoch_wa);
 }
